@@ -643,8 +643,9 @@ class ParseNeighbor(Section):
         if neighbor.capability.multi_session.is_enabled() and len(neighbor.families()) > 1:
             for family in neighbor.families():
                 m_neighbor = deepcopy(neighbor)
-                m_neighbor.make_rib()
-                m_neighbor.rib.outgoing.families = {family}
+                # deferred as below: the RIB shared with the running session was changed while a file
+                # which may still be refused was being read
+                m_neighbor.make_rib(defer=True, families={family})
                 self._init_neighbor(m_neighbor, local)
         else:
             # the RIB is shared with the running session: nothing of it changes before the file is accepted
